@@ -292,6 +292,13 @@ func (w *World) panicSites() []panicSite {
 			for _, ins := range b.Instrs {
 				switch x := ins.(type) {
 				case *ssa.Panic:
+					// (the panics go/ssa synthesises for the range-over-func protocol - an iterator that
+					// calls yield after the loop ended - carry a constant runtime message, no source panic call)
+					if k, isK := x.X.(*ssa.MakeInterface); isK {
+						if cst, ok := k.X.(*ssa.Const); ok && cst.Value != nil && rangeFuncProtocolPanic(constString(cst.Value)) {
+							continue
+						}
+					}
 					add(fn, "panic", "explicit", x.Pos())
 				case *ssa.TypeAssert:
 					if !x.CommaOk {
@@ -1209,4 +1216,16 @@ func closureSelfCall(fn *ssa.Function, callee ssa.Value) *ssa.Function {
 		}
 	}
 	return nil
+}
+
+// rangeFuncProtocolPanic: the messages of the panics go/ssa synthesises around a
+// range-over-func loop (yield called after the loop ended, iterator resumed while running ...).
+func rangeFuncProtocolPanic(msg string) bool {
+	msg = strings.Trim(msg, "\"")
+	for _, p := range []string{"yield function called after range loop exit", "iterator call did not preserve panic", "range function", "iterator"} {
+		if strings.HasPrefix(msg, p) {
+			return true
+		}
+	}
+	return false
 }
